@@ -2,8 +2,8 @@ from ._seqcommon import seq_spec
 
 SPEC = seq_spec(
     'C03',
-    'Lean 4 theorems: no acknowledged entry is ever lost from the committed history (across crashes/restarts), a staging bundle is discarded only after its checkpoint was published, an instance comes up only on the committed lock checkpoint with verified edge objects; crash events are enabled in every state. The liveness half (a restart loads and sequencing continues) is decided by systematic crash enumeration of the real code (crash after every operation of a round and of a recovery, repeated crashes, sizes around tile boundaries) with the acceptor and an independent full-storage audit after every reload: partial as a theorem (C03_recoverable_partial).',
+    'Lean 4 theorems: no acknowledged entry is ever lost from the committed history (across crashes/restarts), a staging bundle is discarded only after its checkpoint was published, an instance comes up only on the committed lock checkpoint with verified edge objects; crash events are enabled in every state. The liveness half (a restart loads and sequencing continues) is decided by systematic crash enumeration of the real code (crash after every operation of a round and of a recovery, repeated crashes, sizes around tile boundaries) with the acceptor and an independent full-storage audit after every reload: partial as a theorem (C03_recoverable_partial); what is proved about recovery: C03_loaded_complete (after every successful load every tile of the lock checkpoint tree is present) and C03_staged_bundle_recovers (a staged bundle always belongs to a completely rendered base tree and re-applying it renders the committed tree).',
     "Trusted: Lean kernel, standard axioms, extractor, harness stores/scheduler, Lean SHA-256 rendering. Assumes the Backend/LockBackend contracts, collision resistance, unforgeability.",
     "invariants by induction over all accepted event sequences (Lean 4) + regenerated effect-skeleton tie + trace acceptance of the real code with byte-exact rendering",
-    required=['C03_no_loss', 'C03_discard_late', 'C03_recoverable_partial'],
+    required=["C03_loaded_complete", "C03_staged_bundle_recovers", 'C03_no_loss', 'C03_discard_late', 'C03_recoverable_partial'],
 )
